@@ -71,6 +71,9 @@ type c05Cast struct {
 	delegAny     *world.Ident // issued by the issuer, EKU anyExtendedKeyUsage
 	delegClient  *world.Ident // issued by the issuer, EKU clientAuth only
 	leafAny      *world.Ident // a client certificate with EKU clientAuth + any (it answers about itself)
+	// client certificates without authority key identifier whose own subject looks like the issuer's name (other letter
+	// case, doubled blank, other attribute order): they answer about themselves, certificate not embedded
+	leafLike map[string]*world.Ident
 }
 
 func newC05Cast() *c05Cast {
@@ -87,6 +90,22 @@ func newC05Cast() *c05Cast {
 	c.delegClient = world.Issue(c.issuer, world.CertOpt{CN: "delegated clientauth eku", Serial: big.NewInt(58), KeyKind: "rsa", KeyIdx: 3, ExtKeyUsage: []x509.ExtKeyUsage{x509.ExtKeyUsageClientAuth}})
 	c.leafAny = world.Issue(c.issuer, world.CertOpt{CN: "c05 client any eku", Serial: big.NewInt(4243), KeyKind: "rsa", KeyIdx: 7, OCSP: []string{ocspURL}, ExtKeyUsage: []x509.ExtKeyUsage{x509.ExtKeyUsageClientAuth, x509.ExtKeyUsageAny}})
 	c.chain = world.Chain(c.leaf, c.issuer, p.Root)
+	c.leafLike = map[string]*world.Ident{}
+	for i, v := range []struct {
+		name string
+		dn   []byte
+	}{
+		{"client-own-named-like-issuer-case", world.RawDN("O", "verif", "CN", "VERIF ISSUING CA RSA")},
+		{"client-own-named-like-issuer-blank", world.RawDN("O", "verif", "CN", "verif  issuing CA rsa")},
+		{"client-own-named-like-issuer-order", world.RawDN("CN", "verif issuing CA rsa", "O", "verif")},
+	} {
+		l := world.Issue(c.issuer, world.CertOpt{CN: v.name, RawSubject: v.dn, Serial: big.NewInt(int64(4250 + i)), KeyKind: "rsa", KeyIdx: 7, OCSP: []string{ocspURL}, NoAKI: true})
+		l = world.WithoutExtension(l, c.issuer, world.OIDAKI)
+		if len(l.Cert.AuthorityKeyId) != 0 || string(l.Cert.RawSubject) == string(c.issuer.Cert.RawSubject) {
+			panic("c05 cast: look-alike leaf")
+		}
+		c.leafLike[v.name] = l
+	}
 	return c
 }
 
@@ -109,12 +128,16 @@ func (c c05Case) String() string {
 }
 
 var c05Signers = []string{"issuer", "delegated-eku", "delegated-no-eku", "client-own", "stranger-embedded", "stranger-bare", "sibling-ca", "delegated-eku-bare",
-	"delegated-eku-any", "delegated-eku-clientauth", "client-own-eku-any", "stranger-embedded-ocspsigning", "sibling-delegated-eku"}
+	"delegated-eku-any", "delegated-eku-clientauth", "client-own-eku-any", "stranger-embedded-ocspsigning", "sibling-delegated-eku",
+	"client-own-named-like-issuer-case", "client-own-named-like-issuer-blank", "client-own-named-like-issuer-order"}
 
 // leafFor: the certificate whose status is asked (a special leaf for the case where the client answers about itself)
 func (k *c05Cast) leafFor(c c05Case) *world.Ident {
 	if c.Signer == "client-own-eku-any" {
 		return k.leafAny
+	}
+	if l, ok := k.leafLike[c.Signer]; ok {
+		return l
 	}
 	return k.leaf
 }
@@ -158,6 +181,10 @@ func (k *c05Cast) build(c c05Case) (body []byte, authentic bool) {
 		a.Signer, a.EmbedCert = k.strangerEKU, true
 	case "sibling-delegated-eku":
 		a.Signer, a.EmbedCert = k.siblingDeleg, true
+	case "client-own-named-like-issuer-case", "client-own-named-like-issuer-blank", "client-own-named-like-issuer-order":
+		// signed by the client's own key, the certificate is not sent along: only a checker which takes the client
+		// certificate for its own issuer can verify this
+		a.Signer, a.Issuer = k.leafLike[c.Signer], k.leafLike[c.Signer]
 	}
 	if c.OtherSerial {
 		authentic = false
@@ -281,7 +308,7 @@ func RunC05(tier string, args []string) int {
 	cov := fw.Coverage{
 		"evaluations":         evals,
 		"distinct_nontrivial": evals - authN,
-		"rule":                "signer (issuer, delegated responder with / without OCSPSigning EKU, authorised responder without embedded certificate, client's own certificate, stranger with / without embedded certificate, sibling CA) x serial (this, other) x status (good, revoked, unknown); OCSP error statuses; every single-bit flip of an authentic good and an authentic revoked response. Each case = fresh checker, strict on, call, responder down, call again. Non-trivial = response not authentic by construction.",
+		"rule":                "signer (issuer, delegated responder with / without OCSPSigning EKU, authorised responder without embedded certificate, client's own certificate, stranger with / without embedded certificate, sibling CA, client certificates named like their issuer answering about themselves) x serial (this, other) x status (good, revoked, unknown); OCSP error statuses; every single-bit flip of an authentic good and an authentic revoked response. Each case = fresh checker, strict on, call, responder down, call again. Non-trivial = response not authentic by construction.",
 		"samples":             samples,
 		"bitflip_cases":       flips,
 		"authentic_cases":     authN,
